@@ -97,7 +97,27 @@ def big_shapes():
     two = []
     for i in range(20):
         two += [(i, i + 1), (i + 1, i)]
-    return {"diamond-ladder-48": ladder(48), "path-51": path, "out-star-40": star_out, "in-star-40": star_in, "cycle-30": cyc, "K5,5": bip,
+    def two_paths(L, cross_at, extra_at):
+        e, nid = [], {}
+
+        def N(x):
+            if x not in nid:
+                nid[x] = len(nid)
+            return nid[x]
+        N(("a", 0))
+        for i in range(L - 1):
+            e.append((N(("a", i)), N(("a", i + 1))))
+            if i == 0:
+                e.append((N(("a", 0)), N(("b", 1))))
+            if i >= 1:
+                e.append((N(("b", i)), N(("b", i + 1))))
+            if i == cross_at:
+                e.append((N(("a", i)), N(("b", i + 1))))
+                e.append((N(("b", i)), N(("a", i + 1))))
+            if i == extra_at:
+                e.append((N(("a", i)), N(("c", i + 1))))
+        return e
+    return {"two-paths-70-layers-a": two_paths(70, 65, 65), "two-paths-70-layers-b": two_paths(70, 66, 64), "diamond-ladder-48": ladder(48), "path-51": path, "out-star-40": star_out, "in-star-40": star_in, "cycle-30": cyc, "K5,5": bip,
             "binary-tree-63": tree, "two-cycle-chain-21": two}
 
 
@@ -115,7 +135,7 @@ def C01(tier):
                      consts={"P1": 2, "P4": 4, "P5": 2, "SZ": 0}, bounds="same shapes x greedy with RNG picks chosen by the solver (rand.Intn = arbitrary value in range)"),
            layout_ob("layout-returns-large", "Harness_E_C01", list(big_shapes().values()), {"P1": [0, 1], "P2": [0, 1]},
                      consts={"P4": 4, "P5": 2, "SZ": 0, "NSFIX": 10, "LSFIX": 20}, loop=8192, depth=300, enctimeout=120, hang_probe=True, hang_timeout=30, validate_cubes=2,
-                     bounds="time/memory budget probe on 8 structured graphs with 21..145 nodes (%s) x {greedy,dfs} x {NS,LP}, default positioner and router, no sizes; "
+                     bounds="time/memory budget probe on 10 structured graphs with 21..145 nodes and up to 70 layers (%s) x {greedy,dfs} x {NS,LP}, default positioner and router, no sizes; "
                             "the engine's loop (8192) / recursion (300) / time (120 s) budgets are the 'generous budget'; an exhausted budget is confirmed natively under a 30 s watchdog" % ", ".join(big_shapes())),
            layout_ob("layout-returns-bk", "Harness_E_C01", shapes(3, 3) if q else shapes(4, 3), {"BK": [-1, 0, 1, 2, 3], "P2": [0, 1]},
                      consts={"P1": 0, "P4": 2, "P5": 2, "SZ": 5, "NSFIX": 10, "LSFIX": 20}, loop=96,
@@ -304,8 +324,17 @@ def C12(tier):
     obs = [layout_ob("layout-crossings", "Harness_E_C12", sh, {"P4": [4, 1, 5], "P2": [0, 1]},
                      consts={"P1": 1, "P5": 2, "SZ": 4, "LSFIX": 1, "MINNS": 1},
                      bounds="all canonical connected simple edge lists N<=%d M<=%d x {SinkColoring,VAlign,PackRight} x {NS,LP}, polyline; symbolic widths in [0,64], "
-                            "NodeSpacing in [1,64] (zero heights so that route points lie on the bands)" % (N, M))]
+                            "NodeSpacing in [1,64] (zero heights so that route points lie on the bands)" % (N, M)),
+           layout_ob("layout-crossings-70-layers", "Harness_E_C12", many_layer_shapes(), {"P2": [0, 1], "P4": [4, 1]},
+                     consts={"P1": 1, "P5": 2, "SZ": 0, "NSFIX": 10, "LSFIX": 1}, loop=8192, depth=300, enctimeout=200, validate_cubes=1,
+                     bounds="two graphs with 70 layers (two parallel 70-node paths, a crossing edge pair at layers 65/66 or 66/67, a third node in one layer): the "
+                            "property's 'more than 64 layers' clause; no sizes")]
     return dict(obligations=obs)
+
+
+def many_layer_shapes():
+    b = big_shapes()
+    return [b["two-paths-70-layers-a"], b["two-paths-70-layers-b"]]
 
 
 def C13(tier):
